@@ -33,11 +33,6 @@
 #define NTFS_EPOC_TICKS (NTFS_EPOC_TIME * NTFS_TICKS)
 #define DOS_MIN_TIME 0x00210000U
 #define DOS_MAX_TIME 0xff9fbf7dU
-/* The min/max DOS Unix time are locale-dependant, so they're static variables,
- * initialised on first use. */
-static char dos_initialised = 0;
-static int64_t dos_max_unix;
-static int64_t dos_min_unix;
 
 #if defined(_WIN32) && !defined(__CYGWIN__)
 #include <winnt.h>
@@ -82,15 +77,12 @@ unix_to_dos(int64_t unix_time)
 	struct tm tmbuf;
 #endif
 
-	if (!dos_initialised) {
-		dos_max_unix = dos_to_unix(DOS_MAX_TIME);
-		dos_min_unix = dos_to_unix(DOS_MIN_TIME);
-		dos_initialised = 1;
-	}
-	if (unix_time >= dos_max_unix) {
+	/* The min/max DOS Unix time depend on the time zone, so they are
+	 * computed here rather than cached in (unsynchronised) statics. */
+	if (unix_time >= dos_to_unix(DOS_MAX_TIME)) {
 		return DOS_MAX_TIME;
 	}
-	else if(unix_time <= dos_min_unix) {
+	else if(unix_time <= dos_to_unix(DOS_MIN_TIME)) {
 		return DOS_MIN_TIME;
 	}
 	else {
